@@ -611,6 +611,18 @@ func c11filters(c *vf.Ctx, i int) {
 	if !c.Call("bloom.NewFilter", in, func() { f1, f2 = mk(), mk() }) {
 		return
 	}
+	if i%3 == 0 {
+		// the caller has used the block before: its cached transaction
+		// wrappers carry whatever index annotation the caller gave them
+		// (Tx.SetIndex is public); positions in a proof are block positions
+		c.Call("Block.Transactions/SetIndex", in, func() {
+			ts := b.blk.Transactions()
+			for k := 1 + c.R.Intn(3); k > 0 && len(ts) > 0; k-- {
+				ts[c.R.Intn(len(ts))].SetIndex([]int{bchutil.TxIndexUnknown, 0, c.R.Intn(len(ts)), len(ts), 1 << 20}[c.R.Intn(5)])
+			}
+		})
+		c.Inc("blocks_whose_tx_wrappers_were_re-annotated_with_SetIndex")
+	}
 	var msgB, msgM *wire.MsgMerkleBlock
 	var idxB, idxM []uint32
 	okB := c.Call("bloom.NewMerkleBlock", in, func() { msgB, idxB = bloom.NewMerkleBlock(b.blk, f1) })
@@ -741,6 +753,31 @@ func c11nearInit(t vf.Tier, seed uint64) any {
 			seen[k] = uint32(l)
 		}
 	}
+	// pairs agreeing in 64 bits (precomputed by cmd/collide64, 2^32.5 hashes
+	// each); every pair is re-verified here with wire's serialisation
+	for _, q := range c11pairs64 {
+		var ph chainhash.Hash
+		for j := range ph {
+			ph[j] = q.Salt ^ byte(j*7+1)
+		}
+		mk := func(seq, lock uint32) *wire.MsgTx {
+			t := c11nearTx(ph, lock)
+			t.TxIn[0].Sequence = seq
+			return t
+		}
+		a, b := mk(q.SeqA, q.LockA), mk(q.SeqB, q.LockB)
+		ia, ib := c11txid(a), c11txid(b)
+		word := func(id [32]byte) uint64 {
+			if q.Mode < 4 {
+				return binary.LittleEndian.Uint64(id[8*q.Mode:])
+			}
+			return binary.LittleEndian.Uint64(id[0:]) ^ binary.LittleEndian.Uint64(id[8:]) ^ binary.LittleEndian.Uint64(id[16:]) ^ binary.LittleEndian.Uint64(id[24:])
+		}
+		if ia == ib || word(ia) != word(ib) {
+			continue // a wrong constant only removes the pair
+		}
+		pairs = append(pairs, c11nearPair{8 + q.Mode, a, b})
+	}
 	return pairs
 }
 
@@ -792,7 +829,11 @@ func c11near(c *vf.Ctx, i int) {
 	default:
 		matched = c11randomSubset(c.R, n)
 	}
-	c.Inc(fmt.Sprintf("sibling_txids_agree_in_word_%d", p.word))
+	if p.word >= 8 {
+		c.Inc("sibling_txids_agree_in_64_bits:" + c11pairs64[p.word-8].What)
+	} else {
+		c.Inc(fmt.Sprintf("sibling_txids_agree_in_word_%d", p.word))
+	}
 	c11runTxnSet(c, blk, matched, c.R.Intn(4), c.R)
 }
 
@@ -804,7 +845,7 @@ func init() {
 			"stream shapes: every n<=65 x {empty, full, 2 alternating, each singleton, each right-edge run, each left-edge run, each all-but-one, seeded}; " +
 			"stream random: seeded n<=3000 (uniform, around powers of two, odd) x 7 subset densities, hash set given in block/reversed/shuffled/shuffled-with-duplicates order; " +
 			"stream filters: subsets induced by a bloom filter loaded with txids, pushed data and outpoints (update flags none/all/p2pubkey-only, blocks with scripts and in-block spends, also out of topological order) via bloom.NewMerkleBlock and merkleblock.NewMerkleBlockWithFilter on two identically constructed filters. " +
-			"stream near-colliding-siblings: blocks in which two sibling transactions have different ids that agree in one aligned 32-bit word (each of the 8 words; pairs found by a birthday search over 2^18 lock times per run). " +
+			"stream near-colliding-siblings: blocks in which two sibling transactions have different ids that agree in one aligned 32-bit word (each of the 8 words; pairs found by a birthday search over 2^18 lock times per run) or in 64 bits (each aligned 64-bit word and the XOR of the four; five pairs precomputed by cmd/collide64 with 2^32.5 hashes each and re-verified on every run). " +
 			"Each message is compared field by field with the reference BIP37 builder and then extracted (one PartialBlock per extraction). Distinct non-trivial case = (block, subset).",
 		Assumptions: []string{
 			"reference merkle root / BIP37 partial-merkle-tree builder and extractor written from the BIP text (self-tested on hand-derived trees, round trips and two gettxoutproof vectors on every run)",
